@@ -542,7 +542,11 @@ class DefGen:
             # the member's type reaches the derive as a `$t:ty` fragment (an invisible group), whole or as a generic argument
             k = len(self._margs)
             h = (len(txt) * 31 + k * 7) % 10
-            if txt.startswith("Vec<") and txt.endswith(">") and h < 3:
+            if f["encoded_as"] or f["compact"]:
+                # members with a codec attribute always arrive as one whole fragment
+                self._margs.append(txt)
+                txt = "$t%d" % k
+            elif txt.startswith("Vec<") and txt.endswith(">") and h < 3:
                 self._margs.append(txt[4:-1])
                 txt = "Vec<$t%d>" % k
             elif h != 9:
@@ -940,9 +944,9 @@ class DefGen:
             s.add("capture_never")
         if d.get("macro"):
             s.add("macro")
-            if any(f["encoded_as"] for f in fs):
+            if any(f["encoded_as"] for f in fs) and sampleable:
                 s.add("macro_encoded_as")
-            if any(f["compact"] for f in fs):
+            if any(f["compact"] for f in fs) and sampleable:
                 s.add("macro_compact")
         if d["name"].startswith("r#"):
             s.add("raw_name")
